@@ -1,8 +1,28 @@
-// Verification model of std::collections::{HashMap, HashSet}: hash-checked association list.
-// lookup(q) finds entry e  iff  hash(e.key) == hash(q) && e.key.borrow() == q
+// Verification model of std::collections::{HashMap, HashSet} (DESIGN.md §4.3): fixed-capacity slot array.
+//  * lookup(q) finds entry e  iff  hash(e.key) == hash(q) && e.key.borrow() == q   (as in any real table:
+//    a Hash/Eq disagreement between the owned and the borrowed key form shows up as a miss);
+//  * (adversarial mode) an insert may relocate existing entries: their (key, value) pair is moved to a fresh
+//    allocation and the old one is freed, as a growing real table does, so a reference derived from the
+//    table's storage instead of the boxed asset dangles (CBMC's pointer checks fire); the slot used for a
+//    new entry is chosen by the solver (arbitrary iteration order);
+//  * exceeding CAP entries is outside the model bound: the path is cut with assume(false) and
+//    MODEL_MAP_OVERFLOW records it.
+// Layout: an array of CAP thin pointers to separately allocated nodes (no large aggregates, no unions:
+// both are expensive for CBMC's byte-level encoding).
 pub mod model_collections {
     use std::borrow::Borrow;
     use std::hash::{BuildHasher, Hash, Hasher};
+
+    pub static mut MODEL_MAP_OVERFLOW: bool = false;
+    pub static mut MODEL_MAP_ADVERSARIAL: bool = false;
+
+    const fn cap_from_env() -> usize {
+        match option_env!("VERIF_MAP_CAP") {
+            Some(s) => { let b = s.as_bytes(); if b.len() == 1 && b[0] >= b'1' && b[0] <= b'9' { (b[0] - b'0') as usize } else { 4 } }
+            None => 4,
+        }
+    }
+    pub const CAP: usize = cap_from_env();
 
     fn h<S: BuildHasher, Q: Hash + ?Sized>(s: &S, q: &Q) -> u64 {
         let mut st = s.build_hasher();
@@ -10,16 +30,84 @@ pub mod model_collections {
         st.finish()
     }
 
-    pub const CAP: usize = 4;
-    pub struct HashMap<K, V, S> { items: [Option<(u64, K, V)>; CAP], hasher: S }
+    struct Node<K, V> { hash: u64, key: K, val: V }
+
+    pub struct HashMap<K, V, S> { slots: [*mut Node<K, V>; CAP], hasher: S }
+    unsafe impl<K: Send, V: Send, S: Send> Send for HashMap<K, V, S> {}
+    unsafe impl<K: Sync, V: Sync, S: Sync> Sync for HashMap<K, V, S> {}
+
+    impl<K, V, S> Drop for HashMap<K, V, S> {
+        fn drop(&mut self) { self.clear(); }
+    }
 
     impl<K, V, S> HashMap<K, V, S> {
-        pub fn with_hasher(hasher: S) -> Self { Self { items: [None, None, None, None], hasher } }
+        pub fn with_hasher(hasher: S) -> Self { Self { slots: [std::ptr::null_mut(); CAP], hasher } }
         pub fn with_capacity_and_hasher(_c: usize, hasher: S) -> Self { Self::with_hasher(hasher) }
-        pub fn clear(&mut self) { let mut i = 0; while i < CAP { self.items[i] = None; i += 1; } }
-        pub fn len(&self) -> usize { let mut n = 0; let mut i = 0; while i < CAP { if self.items[i].is_some() { n += 1; } i += 1; } n }
-        pub fn iter(&self) -> impl Iterator<Item = (&K, &V)> { self.items.iter().filter_map(|e| e.as_ref().map(|(_, k, v)| (k, v))) }
-        pub fn values_mut(&mut self) -> impl Iterator<Item = &mut V> { self.items.iter_mut().filter_map(|e| e.as_mut().map(|(_, _, v)| v)) }
+        pub fn clear(&mut self) {
+            let mut i = 0;
+            while i < CAP {
+                let p = self.slots[i];
+                if !p.is_null() {
+                    self.slots[i] = std::ptr::null_mut();
+                    drop(unsafe { Box::from_raw(p) });
+                }
+                i += 1;
+            }
+        }
+        pub fn len(&self) -> usize { let mut n = 0; let mut i = 0; while i < CAP { if !self.slots[i].is_null() { n += 1; } i += 1; } n }
+        pub fn is_empty(&self) -> bool { self.len() == 0 }
+        pub fn iter(&self) -> Iter<'_, K, V, S> { Iter { map: self, pos: 0 } }
+        pub fn keys(&self) -> impl Iterator<Item = &K> { self.iter().map(|(k, _)| k) }
+        pub fn values(&self) -> impl Iterator<Item = &V> { self.iter().map(|(_, v)| v) }
+        pub fn hasher(&self) -> &S { &self.hasher }
+        #[inline] fn node(&self, i: usize) -> &Node<K, V> { unsafe { &*self.slots[i] } }
+        #[inline] fn node_mut(&mut self, i: usize) -> &mut Node<K, V> { unsafe { &mut *self.slots[i] } }
+        fn relocate(&mut self, a: usize, b: usize) {
+            if a < CAP && b < CAP {
+                // move slot a's pair to a fresh allocation (the old storage is freed) and exchange the slots
+                let p = self.slots[a];
+                if !p.is_null() {
+                    let n = unsafe { Box::from_raw(p) };
+                    self.slots[a] = Box::into_raw(Box::new(*n));
+                }
+                self.slots.swap(a, b);
+            }
+        }
+        fn free(&mut self) -> usize {
+            if unsafe { MODEL_MAP_ADVERSARIAL } {
+                if kani::any() { self.relocate(0, 1); }
+                if kani::any() { self.relocate(1, 2); }
+                let k: usize = kani::any();
+                if k < CAP && self.slots[k].is_null() { return k; }
+            }
+            let mut i = 0;
+            while i < CAP { if self.slots[i].is_null() { return i; } i += 1; }
+            unsafe { MODEL_MAP_OVERFLOW = true; }
+            kani::assume(false);
+            0
+        }
+        fn put(&mut self, i: usize, hash: u64, key: K, val: V) {
+            self.slots[i] = Box::into_raw(Box::new(Node { hash, key, val }));
+        }
+        fn take_slot(&mut self, i: usize) -> (K, V) {
+            let n = unsafe { Box::from_raw(self.slots[i]) };
+            self.slots[i] = std::ptr::null_mut();
+            let Node { key, val, .. } = *n;
+            (key, val)
+        }
+    }
+
+    pub struct Iter<'a, K, V, S> { map: &'a HashMap<K, V, S>, pos: usize }
+    impl<'a, K, V, S> Iterator for Iter<'a, K, V, S> {
+        type Item = (&'a K, &'a V);
+        fn next(&mut self) -> Option<Self::Item> {
+            while self.pos < CAP {
+                let i = self.pos;
+                self.pos += 1;
+                if !self.map.slots[i].is_null() { let n = self.map.node(i); return Some((&n.key, &n.val)); }
+            }
+            None
+        }
     }
 
     impl<K: Eq + Hash, V, S: BuildHasher> HashMap<K, V, S> {
@@ -27,28 +115,30 @@ pub mod model_collections {
             let hq = h(&self.hasher, q);
             let mut i = 0;
             while i < CAP {
-                if let Some((hh, k, _)) = &self.items[i] { if *hh == hq && k.borrow() == q { return Some(i); } }
+                if !self.slots[i].is_null() {
+                    let n = self.node(i);
+                    if n.hash == hq && n.key.borrow() == q { return Some(i); }
+                }
                 i += 1;
             }
             None
         }
         pub fn get<Q: ?Sized + Hash + Eq>(&self, q: &Q) -> Option<&V> where K: Borrow<Q> {
-            match self.pos(q) { Some(i) => self.items[i].as_ref().map(|e| &e.2), None => None }
+            match self.pos(q) { Some(i) => Some(&self.node(i).val), None => None }
         }
         pub fn get_mut<Q: ?Sized + Hash + Eq>(&mut self, q: &Q) -> Option<&mut V> where K: Borrow<Q> {
-            match self.pos(q) { Some(i) => self.items[i].as_mut().map(|e| &mut e.2), None => None }
+            match self.pos(q) { Some(i) => Some(&mut self.node_mut(i).val), None => None }
         }
         pub fn contains_key<Q: ?Sized + Hash + Eq>(&self, q: &Q) -> bool where K: Borrow<Q> { self.pos(q).is_some() }
         pub fn remove<Q: ?Sized + Hash + Eq>(&mut self, q: &Q) -> Option<V> where K: Borrow<Q> {
-            match self.pos(q) { Some(i) => self.items[i].take().map(|e| e.2), None => None }
+            match self.pos(q) { Some(i) => { let (_k, v) = self.take_slot(i); Some(v) } None => None }
         }
         pub fn insert(&mut self, k: K, v: V) -> Option<V> {
             match self.pos(&k) {
-                Some(i) => Some(std::mem::replace(&mut self.items[i].as_mut().unwrap().2, v)),
-                None => { let hk = h(&self.hasher, &k); let f = self.free(); self.items[f] = Some((hk, k, v)); None }
+                Some(i) => Some(std::mem::replace(&mut self.node_mut(i).val, v)),
+                None => { let hk = h(&self.hasher, &k); let f = self.free(); self.put(f, hk, k, v); None }
             }
         }
-        fn free(&self) -> usize { let mut i = 0; while i < CAP { if self.items[i].is_none() { return i; } i += 1; } panic!("model map capacity exceeded") }
         pub fn entry(&mut self, k: K) -> Entry<'_, K, V, S> {
             match self.pos(&k) {
                 Some(i) => Entry::Occupied(OccupiedEntry { map: self, idx: i }),
@@ -65,46 +155,65 @@ pub mod model_collections {
         pub fn or_insert(self, default: V) -> &'a mut V {
             match self { Entry::Occupied(e) => e.into_mut(), Entry::Vacant(e) => e.insert(default) }
         }
+        pub fn or_insert_with<F: FnOnce() -> V>(self, f: F) -> &'a mut V {
+            match self { Entry::Occupied(e) => e.into_mut(), Entry::Vacant(e) => e.insert(f()) }
+        }
         pub fn or_default(self) -> &'a mut V where V: Default {
             match self { Entry::Occupied(e) => e.into_mut(), Entry::Vacant(e) => e.insert(V::default()) }
         }
     }
     impl<'a, K, V, S> OccupiedEntry<'a, K, V, S> {
-        pub fn into_mut(self) -> &'a mut V { &mut self.map.items[self.idx].as_mut().unwrap().2 }
+        pub fn into_mut(self) -> &'a mut V { &mut self.map.node_mut(self.idx).val }
+        pub fn get(&self) -> &V { &self.map.node(self.idx).val }
+        pub fn get_mut(&mut self) -> &mut V { &mut self.map.node_mut(self.idx).val }
     }
     impl<'a, K: Eq + Hash, V, S: BuildHasher> VacantEntry<'a, K, V, S> {
         pub fn insert(self, v: V) -> &'a mut V {
             let hk = h(&self.map.hasher, &self.key);
             let n = self.map.free();
-            self.map.items[n] = Some((hk, self.key, v));
-            &mut self.map.items[n].as_mut().unwrap().2
+            self.map.put(n, hk, self.key, v);
+            &mut self.map.node_mut(n).val
         }
     }
     impl<'a, K, V, S> IntoIterator for &'a HashMap<K, V, S> {
         type Item = (&'a K, &'a V);
-        type IntoIter = std::iter::FilterMap<std::slice::Iter<'a, Option<(u64, K, V)>>, fn(&'a Option<(u64, K, V)>) -> Option<(&'a K, &'a V)>>;
-        fn into_iter(self) -> Self::IntoIter { fn f<'b, K, V>(e: &'b Option<(u64, K, V)>) -> Option<(&'b K, &'b V)> { e.as_ref().map(|(_, k, v)| (k, v)) } self.items.iter().filter_map(f::<K, V> as fn(&'a Option<(u64, K, V)>) -> Option<(&'a K, &'a V)>) }
+        type IntoIter = Iter<'a, K, V, S>;
+        fn into_iter(self) -> Self::IntoIter { self.iter() }
     }
-    impl<K: std::fmt::Debug, V: std::fmt::Debug, S> std::fmt::Debug for HashMap<K, V, S> {
+    impl<K, V, S> std::fmt::Debug for HashMap<K, V, S> {
         fn fmt(&self, f: &mut std::fmt::Formatter<'_>) -> std::fmt::Result { f.write_str("HashMap{..}") }
     }
 
-    pub struct HashSet<T, S> { map: HashMap<T, (), S> }
+    pub struct HashSet<T, S> { map: HashMap<T, u8, S> }
+    pub struct SetIter<'a, T, S> { it: Iter<'a, T, u8, S> }
+    impl<'a, T, S> Iterator for SetIter<'a, T, S> {
+        type Item = &'a T;
+        fn next(&mut self) -> Option<&'a T> { self.it.next().map(|(k, _)| k) }
+    }
     impl<T, S> HashSet<T, S> {
         pub fn with_hasher(hasher: S) -> Self { Self { map: HashMap::with_hasher(hasher) } }
         pub fn clear(&mut self) { self.map.clear(); }
         pub fn len(&self) -> usize { self.map.len() }
-        pub fn iter(&self) -> impl Iterator<Item = &T> { self.map.items.iter().filter_map(|e| e.as_ref().map(|(_, k, _)| k)) }
+        pub fn is_empty(&self) -> bool { self.map.len() == 0 }
+        pub fn iter(&self) -> SetIter<'_, T, S> { SetIter { it: self.map.iter() } }
+    }
+    impl<'a, T, S> IntoIterator for &'a HashSet<T, S> {
+        type Item = &'a T;
+        type IntoIter = SetIter<'a, T, S>;
+        fn into_iter(self) -> Self::IntoIter { self.iter() }
     }
     impl<T: Eq + Hash, S: BuildHasher> HashSet<T, S> {
-        pub fn insert(&mut self, t: T) -> bool { self.map.insert(t, ()).is_none() }
+        pub fn insert(&mut self, t: T) -> bool {
+            if self.map.contains_key(&t) { return false; }
+            self.map.insert(t, 0).is_none()
+        }
         pub fn remove<Q: ?Sized + Hash + Eq>(&mut self, q: &Q) -> bool where T: Borrow<Q> { self.map.remove(q).is_some() }
         pub fn contains<Q: ?Sized + Hash + Eq>(&self, q: &Q) -> bool where T: Borrow<Q> { self.map.contains_key(q) }
         pub fn difference<'a>(&'a self, other: &'a Self) -> impl Iterator<Item = &'a T> + 'a {
             self.iter().filter(move |t| !other.contains(*t))
         }
     }
-    impl<T: std::fmt::Debug, S> std::fmt::Debug for HashSet<T, S> {
+    impl<T, S> std::fmt::Debug for HashSet<T, S> {
         fn fmt(&self, f: &mut std::fmt::Formatter<'_>) -> std::fmt::Result { f.write_str("HashSet{..}") }
     }
 }
